@@ -134,12 +134,10 @@ class Distribution(DistributionModel):
 
     def _sample_shape(self) -> torch.Size:
         x_shape = self.x.tensor.shape
-        if len(x_shape) > len(self.batch_shape):
-            offset = 1 if len(self.batch_shape) == 0 else len(self.batch_shape)
-            return x_shape[:-offset]
-        else:
-            # the distribution is a likelihood term
-            return self.batch_shape[: -len(x_shape)]
+        event = len(self.event_shape)
+        if event == 0:
+            return torch.broadcast_shapes(x_shape, self.batch_shape)[:-1]
+        return torch.broadcast_shapes(x_shape[:-event], self.batch_shape)
 
     @property
     def distribution(self) -> torch.distributions.Distribution:
